@@ -76,6 +76,13 @@ CHECKS['C20'] = dict(
     design_ref='DESIGN.md section 3 C20',
     note='the threading read-write lock and FileLock under real threads are not explored by this check (no thread scheduler engine was built); FileLock holders are assumed to hold for less than the expiry; FileLock reader/writer overlap is by design and not claimed by the property',
     technique='exhaustive enumeration of event orders and cancellation points on the real lock objects under a virtual event loop')
+CHECKS['C09'] = dict(
+    engine='E5 explicit-state BFS over vf/checks/c09.py',
+    category='model_checking',
+    text='Exhaustive BFS (depth 4 quick / 5 thorough) over authentication events on one connection, for 6 configurations (IMAP and ManageSieve x TLS offered or not x local or remote peer): LOGIN with 10 credential shapes (good, wrong, empty, unknown user, admin, 8-bit, 1000-byte, another user\'s password, case variant, new password), AUTHENTICATE PLAIN with 16 response shapes (good, authzid=self, wrong password, authzid!=authcid by a normal user / by an admin / for an unknown user / with the admin\'s wrong password, unknown authcid, malformed base64, cancel, empty, missing NULs, 10 kB), AUTHENTICATE LOGIN exchanges incl. cancellation at the second step, unknown mechanism, STARTTLS, UNAUTHENTICATE, reconnect, and an out-of-band password change. A reference auth model predicts the admissible identities; the identity a connection acts as is read glass-box (session owner) after every step and black-box (marker mailbox / marker script visible to the connection) on a discarded copy of every state. Oracles: authenticated only after verifying credentials of an existing user over a channel on which PLAIN/LOGIN is offered; acting as another identity only with the admin role; LOGIN refused while LOGINDISABLED is advertised; failed/cancelled/malformed exchanges leave the connection unauthenticated; tagged result and state agree.',
+    design_ref='DESIGN.md section 3 C09',
+    note='dict backend; not granting a proxy identity and ignoring the requested authorisation identity (acting as the authenticating user) are admissible; successful credentials are part of the state key so that cache-like hidden state is not merged away; maildir Login is not in this check',
+    technique='explicit-state model checking of the implementation against a reference auth model')
 NA = {}
 
 def main():
